@@ -594,12 +594,14 @@ class Evaluator:
       name = norm_ident(f.value.id)
       cur = env.get(name)
       if cur is None:
-        return
-      if f.attr not in ('append', 'extend', 'update'):
+        cur = UNBOUND
+      if cur is UNBOUND or f.attr not in ('append', 'extend', 'update'):
         args = []
       else:
         args = [self.eval(a, env, ctx) for a in node.args if not isinstance(a, ast.Starred)]
-      if f.attr == 'append' and cur.k == 'list' and len(args) == 1:
+      if cur is UNBOUND:
+        pass
+      elif f.attr == 'append' and cur.k == 'list' and len(args) == 1:
         env[name] = Term('list', *(cur.a + (args[0],)))
       elif f.attr == 'append' and len(args) == 1:
         env[name] = Term('store', cur, const('append'), args[0], 'append')
